@@ -9,7 +9,7 @@ from av import attach, ref
 MANIFEST_ENTRY = {
     "category": "exploration",
     "technique": "runtime contracts on real Covout.get_outcome calls plus marginal probes: the same Covout is rebuilt through the public constructor with indicator outcomes for every combination, which reads the weight distribution off the real code",
-    "text": "For generated Covouts (1-5 programs, additive / nested / random coverage interaction, coverage vectors with sums below, at and above 1, exact 0s and 1s, ties; outcomes above, below and mixed relative to baseline; explicit interaction outcomes on random subsets) the real get_outcome is checked for: bounds by min/max of baseline and combination outcomes, baseline at zero coverage, the single-program formula, marginals of the implied weights equal to each coverage and total weight in [0,1] (via indicator outcomes given as explicit interactions for every combination), monotonicity when all deltas share a sign, and the combination-outcome rule (explicit value, else member farthest from baseline). The bound contract is also attached to every call the integrator makes in library model runs. 15% of the explicit interaction outcomes are exactly the baseline. 12% of the Covouts have whole-number outcomes and baselines given as Python / numpy integers.",
+    "text": "For generated Covouts (1-5 programs, additive / nested / random coverage interaction, coverage vectors with sums below, at and above 1, exact 0s and 1s, ties; outcomes above, below and mixed relative to baseline; explicit interaction outcomes on random subsets) the real get_outcome is checked for: bounds by min/max of baseline and combination outcomes, baseline at zero coverage, the single-program formula, marginals of the implied weights equal to each coverage and total weight in [0,1] (via indicator outcomes given as explicit interactions for every combination), monotonicity when all deltas share a sign, and the combination-outcome rule (explicit value, else member farthest from baseline). The bound contract is also attached to every call the integrator makes in library model runs. 15% of the explicit interaction outcomes are exactly the baseline. 12% of the Covouts have whole-number outcomes and baselines given as Python / numpy integers. A third of the Covouts are edited after construction (baseline, an outcome; update_outcomes()) and must answer like a freshly built object.",
     "note": "Only the algebraic properties stated in the property are tested, not a particular reading of the additive spill-over rule.",
 }
 
